@@ -118,7 +118,10 @@ NotInner == {Call(q1(X)), Call(r1(X)), Call(t1(X)), UnifyG(X, b), UnifyG(X, Y), 
              AndG(<<UnifyG(X, b), FailG>>), OrG(<<AndG(<<Call(q1(X)), FailG>>), Call(t1(X))>>),
              (* a test AFTER the goal that instantiates its operand (the operand is only aliased when the not is reached) *)
              AndG(<<Call(q1(X)), Bip("equal", <<X, b>>)>>), AndG(<<Call(q1(X)), Bip("less_than", <<X, b>>)>>),
-             AndG(<<UnifyG(Y, X), Call(r1(Y)), Bip("greater_than", <<X, b>>)>>)}
+             AndG(<<UnifyG(Y, X), Call(r1(Y)), Bip("greater_than", <<X, b>>)>>),
+             (* a conjunction whose FIRST goal is a conjunction: the only answer needs a later answer of the inner tail *)
+             AndG(<<AndG(<<Call(q1(X)), Call(r1(Y))>>), Bip("equal", <<Y, c>>)>>),
+             AndG(<<AndG(<<Call(q1(Y)), Call(r1(X))>>), Bip("equal", <<X, c>>)>>)}
 NotBodies ==
        {NotG(g) : g \in NotInner}
   \cup {AndG(<<l, NotG(g)>>) : l \in {Call(q1(X)), Call(r1(X)), UnifyG(X, c)}, g \in NotInner}
@@ -132,6 +135,20 @@ AnonFacts == <<Fact(w2(Anon, a)), Fact(w2(b, b)), Fact(w2(c, c)), Fact(w2(X, Ato
 NotAnonBodies == {NotG(Call(w2(X, a))), NotG(Call(w2(X, Atom("d")))), NotG(Call(w2(a, X))), NotG(Call(w2(b, a))), NotG(Call(w2(a, a))),
                   AndG(<<Call(q1(X)), NotG(Call(w2(X, a)))>>), AndG(<<Call(r1(X)), NotG(Call(w2(X, Atom("d")))), pr(X)>>),
                   AndG(<<UnifyG(Y, X), NotG(Call(w2(Y, a)))>>), NotG(Call(w2(X, Y)))}
+(* ------------------------------ slice: anon ($_ in the search, C09) ------- *)
+(* heads with $_ against goals with constants, goals with $_ against heads with constants / variables / $_, as query  *)
+(* and in rule bodies, before and after goals that bind; $_ never binds and never blocks                               *)
+AnonFacts2 == AnonFacts \o <<Fact(Cx("likes", <<Anon, Atom("pizza")>>)), Fact(Cx("seen", <<Anon>>)), Fact(Cx("both", <<Anon, Anon>>))>>
+AnonGoals == {Call(w2(b, a)), Call(w2(a, a)), Call(w2(Anon, b)), Call(w2(Anon, Atom("d"))), Call(w2(c, Anon)), Call(w2(Anon, Anon)),
+              Call(s2(Anon, Anon)), Call(s2(a, Anon)), Call(s2(Anon, c)), Call(Cx("likes", <<a, Atom("pizza")>>)), Call(Cx("likes", <<Anon, Atom("pizza")>>)),
+              Call(Cx("likes", <<a, b>>)), Call(Cx("seen", <<a>>)), Call(Cx("seen", <<Anon>>)), Call(Cx("both", <<a, IntT(7)>>)), Call(q1(Anon)),
+              Call(w2(X, Anon)), Call(s2(X, Anon)), Call(Cx("seen", <<X>>))}
+AnonBodies2 == AnonGoals \cup {AndG(<<Call(q1(X)), g>>) : g \in AnonGoals} \cup {AndG(<<g, Call(r1(X))>>) : g \in AnonGoals}
+ProgsAnon ==
+       PQS({BaseFacts \o AnonFacts2 \o <<Clause(p1(X), bd)>> : bd \in AnonBodies2}, {p1(Z), p1(b)})
+  \cup PQ(BaseFacts \o AnonFacts2, {w2(Anon, a), w2(b, Anon), w2(Anon, Anon), s2(a, Anon), s2(Anon, Anon), Cx("likes", <<a, Atom("pizza")>>),
+                                    Cx("likes", <<Anon, Atom("pizza")>>), Cx("seen", <<Anon>>), Cx("both", <<a, b>>), q1(Anon), w2(Z, Anon), w2(Anon, Z)})
+
 ProgsNot ==
        PQS({BaseFacts \o <<Clause(p1(X), bd)>> : bd \in NotBodies}, {p1(Z), p1(a), p1(c)})
   \cup PQS({BaseFacts \o AnonFacts \o <<Clause(p1(X), bd)>> : bd \in NotAnonBodies}, {p1(Z), p1(a), p1(b), p1(c)})
@@ -257,10 +274,19 @@ LateProg == BaseFacts \o
 WrapProg == BaseFacts \o AliasExtra \o
   << Fact(Cx("pack", <<Cx("box", <<V("$Item")>>)>>)), Fact(Cx("pack", <<LstT(<<a>>, V("$Item"))>>)),
      Clause(Cx("wr", <<VA, VB>>), AndG(<<Call(Cx("pack", <<VA>>)), Call(Cx("e2", <<VB, c>>))>>)),
-     Clause(Cx("wr2", <<VA, VB>>), AndG(<<Call(Cx("pack", <<VA>>)), Call(Cx("pack", <<VB>>))>>)) >>
+     Clause(Cx("wr2", <<VA, VB>>), AndG(<<Call(Cx("pack", <<VA>>)), Call(Cx("pack", <<VB>>))>>)),
+     (* a head all of whose arguments are $_ (and a goal all of whose arguments are $_), after a goal that made a binding *)
+     Fact(Cx("seen", <<Anon>>)), Fact(Cx("seen2", <<Anon, Anon>>)),
+     Clause(Cx("wr3", <<VA, VB>>), AndG(<<Call(q1(VA)), Call(Cx("seen", <<VB>>)), Call(Cx("seen2", <<VA, c>>))>>)),
+     Clause(Cx("wr4", <<VA>>), AndG(<<Call(q1(VA)), Call(s2(Anon, Anon))>>)),
+     (* a fact with several variables of its own, called with unbound variables which are bound afterwards: under the    *)
+     (* renamings of C11 the fact's names and the caller's names coincide in DIFFERENT positions                          *)
+     Fact(Cx("both", <<X, Y, Cx("f", <<X, Y>>)>>)), Fact(Cx("first", <<LstT(<<V("$H")>>, V("$T")), V("$H")>>)),
+     Clause(Cx("wr5", <<VC>>), AndG(<<Call(Cx("both", <<VA, VB, VC>>)), UnifyG(VA, a), UnifyG(VB, b)>>)),
+     Clause(Cx("wr6", <<VA, VB>>), AndG(<<Call(Cx("first", <<VB, VA>>)), UnifyG(VB, Lst(<<a, b>>))>>)) >>
 ProgsAlias == PQS({BaseFacts \o AliasExtra \o <<c1_, c2_>> : c1_ \in AliasClauses, c2_ \in AliasClauses}, AliasQueries)
               \cup PQ(LateProg, {Cx("late", <<Z>>), Cx("late", <<X>>)})
-              \cup PQ(WrapProg, {Cx("wr", <<Z, W>>), Cx("wr2", <<Z, W>>), Cx("wr", <<X, Y>>)})
+              \cup PQ(WrapProg, {Cx("wr", <<Z, W>>), Cx("wr2", <<Z, W>>), Cx("wr", <<X, Y>>), Cx("wr3", <<Z, W>>), Cx("wr4", <<Z>>), Cx("wr5", <<Z>>), Cx("wr6", <<Z, W>>), Cx("wr6", <<V("$T"), V("$H")>>)})
 
 ProgQueries == CASE Slice = "andor" -> ProgsAndOr
                  [] Slice = "cut"   -> ProgsCut
@@ -270,6 +296,7 @@ ProgQueries == CASE Slice = "andor" -> ProgsAndOr
                  [] Slice = "deep"  -> ProgsDeep
                  [] Slice = "lists" -> ProgsLists
                  [] Slice = "alias" -> ProgsAlias
+                 [] Slice = "anon"  -> ProgsAnon
 
 (* ------------------------------ the model ------------------------------- *)
 NoneSeg == [out |-> <<>>, ans |-> <<>>, some |-> FALSE]
